@@ -59,6 +59,10 @@ Hypothesis Hg2 : a_fp_guard_words a = 2.
 Hypothesis Hfv_sp : reg_valid a (a_sp_name a) (VSome (fp_valid a)) = true.
 Hypothesis Hfv_csp : reg_valid a (a_cfi_sp_name a) (VSome (fp_valid a)) = true.
 Hypothesis Hfv_fp : memb (a_fp_name a) (fp_valid a) = true.
+(* a CFI frame carries a valid frame pointer on: some CALLEE_SAVED_REGS entry is a spelling of the frame pointer and
+   callee_forwarded_regs keeps it whenever the frame pointer is valid in the callee (under any spelling) *)
+Hypothesis Hcarry : exists c, In c (a_callee_saved a) /\ In c (alias_group a (a_fp_name a)) /\
+  forall l, reg_valid a (a_fp_name a) (VSome l) = true -> (if a_fwd_alias a then reg_valid a c (VSome l) else memb c l) = true.
 Hypothesis Hwf : mix_wf_layout a instr_valid module_at base ip0 fp0 all = true.
 
 Notation mem := (mk_mem a base (mix_words all)).
@@ -322,18 +326,20 @@ Proof.
   apply existsb_exists. exists x. split; [apply filter_In; auto | apply Z.eqb_refl].
 Qed.
 (* a CFI frame carries a valid frame pointer on: it is callee-saved *)
-Lemma has_name_forwarded : forall v l2, memb (a_fp_name a) (a_callee_saved a) = true -> has_name (a_fp_name a) v = true ->
-  has_name (a_fp_name a) (VSome (forwarded a v ++ l2)) = true.
+Lemma reg_valid_forwarded : forall v l2, reg_valid a (a_fp_name a) v = true ->
+  reg_valid a (a_fp_name a) (VSome (forwarded a v ++ l2)) = true.
 Proof.
-  intros v l2 Hm H. cbn [has_name]. apply memb_app_l. destruct v as [|l]; cbn [forwarded]; [exact Hm|].
-  apply memb_filter; [exact Hm | exact H].
+  destruct Hcarry as [c [Hin [Hal Hl]]]. intros v l2 H.
+  assert (M : memb c (forwarded a v ++ l2) = true).
+  { apply memb_app_l. destruct v as [|l]; cbn [forwarded]; [apply In_memb; exact Hin|].
+    apply memb_filter; [apply In_memb; exact Hin | exact (Hl l H)]. }
+  unfold reg_valid. apply existsb_exists. exists c. split; [exact Hal | exact M].
 Qed.
 
 Lemma frames_ok_cons : forall ctx instr off st f t, mix_frames_ok a instr_valid module_at base ctx instr off st (f :: t) = true ->
   words_in_range a (ms_fill f) = true /\ a_cutoff a <= ms_ra f < 2 ^ a_bits a /\
   (match ms_tech f with
-   | TkCfi => module_at instr <> None /\ (a_strip a = true -> ms_ra f < 2 ^ 47) /\
-              (st_val st <> 0 -> memb (a_fp_name a) (a_callee_saved a) = true)
+   | TkCfi => module_at instr <> None /\ (a_strip a = true -> ms_ra f < 2 ^ 47)
    | TkScan =>
        let lo := if ctx then 0 else scan_skip_words a in
        let win := if ctx then a_scan_context a else a_scan_default a in
@@ -356,11 +362,9 @@ Proof.
   apply Z.leb_le in H2. apply Z.ltb_lt in H3.
   split; [exact H1|]. split; [lia|]. split; [|exact H5].
   destruct (ms_tech f).
-  - apply andb_prop in H4. destruct H4 as [H4 H8]. apply andb_prop in H4. destruct H4 as [H6 H7]. split; [|split].
+  - apply andb_prop in H4. destruct H4 as [H6 H7]. split.
     + destruct (module_at instr); [discriminate|discriminate H6].
     + intros E. rewrite E in H7. cbn in H7. apply Z.ltb_lt in H7. exact H7.
-    + intros Hnz. apply orb_prop in H8. destruct H8 as [H8|H8]; [|exact H8]. exfalso. apply Hnz.
-      destruct st as [v|]; [|reflexivity]. cbn in H8. apply Z.eqb_eq in H8. cbn. exact H8.
   - cbv zeta in H4. cbv zeta.
     apply andb_prop in H4. destruct H4 as [H4 H11].
     apply andb_prop in H4. destruct H4 as [H4 H10]. apply andb_prop in H4. destruct H4 as [H4 H9].
@@ -397,10 +401,10 @@ Definition rstate (callee : frame) (done : list mspec) : Prop :=
   f_instr callee = prev_instr a ip0 done.
 
 (* the callee's frame pointer: its value is the state's (0 when not valid), a stack-like value where pointer
-   authentication bits are stripped, and named by the validity set when the state says valid *)
+   authentication bits are stripped, and valid (under some spelling) when the state says valid *)
 Definition fpinv (callee : frame) (st : option Z) : Prop :=
   r_fp (f_regs callee) = st_val st /\ 0 <= st_val st /\ (a_strip a = true -> st_val st < 2 ^ 47) /\
-  (forall v, st = Some v -> v <> 0 -> has_name (a_fp_name a) (f_valid callee) = true).
+  (st <> None -> reg_valid a (a_fp_name a) (f_valid callee) = true).
 
 (* the symbol-file oracle answers like the correct one on the frames this walk reaches: the callee of the record after
    [done] has its sp at that record, lr = 0, a valid sp, and the lookup address of its position *)
@@ -476,7 +480,7 @@ Proof.
       - cbn [length] in Hfuel. lia. }
     destruct (ms_tech f) eqn:Etech.
     + (* described by CFI *)
-      destruct Htech as [Hmod [H47 Hcs]].
+      destruct Htech as [Hmod H47].
       assert (Estrip : strip a max_module_addr (ms_ra f) = ms_ra f).
       { unfold strip. destruct (a_strip a) eqn:Es; [|reflexivity].
         pose proof (strip_small a max_module_addr (ms_ra f)) as S. unfold strip in S. rewrite Es in S. apply S.
@@ -506,7 +510,7 @@ Proof.
         -- apply csp_cfi_valid.
         -- rewrite prev_instr_snoc. reflexivity.
       * cbn [mix_next_st]. unfold fpinv. cbn [set_instr from_context f_regs f_valid r_fp]. repeat split; auto.
-        intros v0 E0 Hnz. apply has_name_forwarded; [apply Hcs; rewrite E0; exact Hnz | exact (Hstv v0 E0 Hnz)].
+        intros Hne. apply reg_valid_forwarded. exact (Hstv Hne).
     + (* found by scanning *)
       cbv zeta in Htech. destruct Htech as [Hlo [Hwin [Hz [Hok Hstz]]]].
       assert (Hfp0 : r_fp (f_regs callee) = 0) by (rewrite Hfp; exact Hstz).
@@ -573,7 +577,7 @@ Proof.
         -- exact Hn_csp.
         -- rewrite prev_instr_snoc. reflexivity.
       * cbn [mix_next_st]. unfold fpinv. cbn [set_instr from_context f_regs f_valid r_fp st_val]. repeat split; try lia.
-        intros v0 E0. discriminate E0.
+        intros Hne. exfalso. apply Hne. reflexivity.
     + (* found through the frame pointer *)
       cbv zeta in Htech. destruct Htech as [Hmx [Hl1 [Est' [Hcan [H47 [Hcsp Hamd]]]]]].
       set (nf := last (ms_fill f) 0) in *.
@@ -622,7 +626,7 @@ Proof.
       assert (A7 : a_strip a = true -> nf < 2 ^ 47) by (intros E; destruct (H47 E); assumption).
       assert (A8 : a_strip a = true -> ms_ra f < 2 ^ 47) by (intros E; destruct (H47 E); assumption).
       assert (A9 : reg_valid a (a_fp_name a) (f_valid callee) = true).
-      { apply has_name_valid. apply (Hstv F); [rewrite Est'; reflexivity | lia]. }
+      { apply Hstv. rewrite Est'. discriminate. }
       assert (A10 : 0 <= nf) by lia.
       assert (Efp : by_fp current_code p a os mem max_module_addr callee
                     = Ret (Some (ctx_regs (ms_ra f) sp' nf, fp_valid a))).
@@ -647,7 +651,7 @@ Proof.
       * cbn [mix_next_st]. fold nf. unfold fpinv. cbn [set_instr from_context f_regs f_valid r_fp st_val has_name].
         repeat split; try lia.
         -- intros E. destruct (H47 E). assumption.
-        -- intros v0 _ _. exact Hfv_fp.
+        -- intros _. apply (has_name_valid (a_fp_name a) (VSome (fp_valid a))). exact Hfv_fp.
 Qed.
 
 Lemma mix_recovers : forall fuel, (length all < fuel)%nat ->
@@ -688,23 +692,31 @@ Definition mix_arch (a : arch) (os : Z) : Prop :=
   (a_fp a = FpArm -> (os =? OS_IOS) = false) /\ (a_fp a = FpArm64 -> a_canon_fp a 0 = false) /\
   a_fp_guard_words a = 2 /\
   reg_valid a (a_sp_name a) (VSome (fp_valid a)) = true /\ reg_valid a (a_cfi_sp_name a) (VSome (fp_valid a)) = true /\
-  memb (a_fp_name a) (fp_valid a) = true.
+  memb (a_fp_name a) (fp_valid a) = true /\
+  (exists c, In c (a_callee_saved a) /\ In c (alias_group a (a_fp_name a)) /\
+     forall l, reg_valid a (a_fp_name a) (VSome l) = true -> (if a_fwd_alias a then reg_valid a c (VSome l) else memb c l) = true).
+
+(* the spelling of the frame pointer that CALLEE_SAVED_REGS lists, per architecture, and why it is kept *)
+Ltac carry_tac c :=
+  exists c; split; [cbn; tauto|]; split; [cbn; tauto|];
+  let Hrv := fresh "Hrv" in intros l Hrv; revert Hrv; cbv -[memb];
+  repeat match goal with |- context [memb ?x l] => destruct (memb x l) end; cbn; auto.
 
 Lemma mix_arch_x86 : forall os, mix_arch x86 os.
-Proof. intros os. split; [exact arch_ok_x86|]. repeat split; try reflexivity; try discriminate. cbn; auto. Qed.
+Proof. intros os. split; [exact arch_ok_x86|]. repeat split; try reflexivity; try discriminate; [cbn; auto | carry_tac (a_fp_name x86)]. Qed.
 Lemma mix_arch_amd64 : forall os, mix_arch amd64 os.
-Proof. intros os. split; [exact arch_ok_amd64|]. repeat split; try reflexivity; try discriminate. cbn; auto. Qed.
+Proof. intros os. split; [exact arch_ok_amd64|]. repeat split; try reflexivity; try discriminate; [cbn; auto | carry_tac (a_fp_name amd64)]. Qed.
 Lemma mix_arch_arm : forall os, os <> OS_IOS -> mix_arch arm os.
 Proof.
-  intros os H. split; [exact arch_ok_arm|]. repeat split; try reflexivity; try discriminate; [cbn; auto|].
+  intros os H. split; [exact arch_ok_arm|]. repeat split; try reflexivity; try discriminate; [cbn; auto| |carry_tac 26224].
   intros _. apply Z.eqb_neq. exact H.
 Qed.
 Lemma mix_arch_arm64 : forall os, mix_arch arm64 os.
-Proof. intros os. split; [exact arch_ok_arm64|]. repeat split; try reflexivity; try discriminate. cbn; auto. Qed.
+Proof. intros os. split; [exact arch_ok_arm64|]. repeat split; try reflexivity; try discriminate; [cbn; auto | carry_tac 26224]. Qed.
 Lemma mix_arch_mips32 : forall os, mix_arch mips32 os.
-Proof. intros os. split; [exact arch_ok_mips32|]. repeat split; try reflexivity; try discriminate. cbn; auto. Qed.
+Proof. intros os. split; [exact arch_ok_mips32|]. repeat split; try reflexivity; try discriminate; [cbn; auto | carry_tac 26224]. Qed.
 Lemma mix_arch_mips64 : forall os, mix_arch mips64 os.
-Proof. intros os. split; [exact arch_ok_mips64|]. repeat split; try reflexivity; try discriminate. cbn; auto. Qed.
+Proof. intros os. split; [exact arch_ok_mips64|]. repeat split; try reflexivity; try discriminate; [cbn; auto | carry_tac 26224]. Qed.
 
 (* the frames a walk over [fs] reaches: the callee of the record after [done] *)
 Definition reached (a : arch) (base ip0 : Z) (callee : frame) (done : list mspec) : Prop :=
@@ -723,8 +735,8 @@ Theorem mix_recovers_reached :
     walk_stack current_code p a os mem module_at max_module_addr cfi_walk instr_valid fuel r v
     = Ret (from_context r v TContext :: mix_chain a v gp0 (Some fp0) base 0 fs).
 Proof.
-  intros p a os ma mm iv base fs ip0 fp0 gp0 fuel cw [Ha [Hs [Hc [Hn [Hn2 [H1 [H2 [H3 [H4 [H5 H6]]]]]]]]]] Hag Hwf Hf.
-  exact (mix_recovers p a os ma mm cw iv base fs ip0 fp0 gp0 Ha Hs Hc Hn Hn2 H1 H2 H3 H4 H5 H6 Hwf Hag fuel Hf).
+  intros p a os ma mm iv base fs ip0 fp0 gp0 fuel cw [Ha [Hs [Hc [Hn [Hn2 [H1 [H2 [H3 [H4 [H5 [H6 H7]]]]]]]]]]] Hag Hwf Hf.
+  exact (mix_recovers p a os ma mm cw iv base fs ip0 fp0 gp0 Ha Hs Hc Hn Hn2 H1 H2 H3 H4 H5 H6 H7 Hwf Hag fuel Hf).
 Qed.
 
 Theorem mix_recovers_gen :
